@@ -210,7 +210,8 @@ def run(ctx):
             vd = v.calls('disconnect::validate_disconnect_packet_outbound')
             ok = len(sends) == 1 and len(vd) == 1 and guarded_any(v, sends[0].bb, [r'^Try::branch\(disconnect::validate_disconnect_packet_outbound\(.*\)\) is Continue$', r'\.disconnect is None$'])
             ctx.ob(ok, '%s: a DISCONNECT passed to stop() is validated before the stop request is sent' % short(p, 3), 'stop|' + short(p, 3), loc=v.loc())
-    ctx.floor(nstop, 2, 'stop() implementations')
+    if ctx.config == 'all':
+        ctx.floor(nstop, 2, 'stop() implementations')
 
     # ------------------------------------------------------------ R-C16-5
     ctx.rule('R-C16-5', 'T4 dispatch', 'both validator dispatchers route each packet kind to the validator of that kind')
